@@ -266,3 +266,63 @@ def trie_unit_format(db, ctx):
                                  "next text byte would be followed as a transition / a wrong child is visited" % (bad[0][0], bad[0][1], bad[0][2], len(bad), len(probes)))),
                fn=f)
     ctx.floor(4)
+
+
+@rule("C04.homographs-accumulate", "IndexBuilder::add appends the id to the entry of its key wherever earlier ids of that key came from: the entry is "
+                                   "obtained through entry(key) (or get_mut with an insert only for a missing key); a plain insert(key, ..) replaces the "
+                                   "ids collected so far when the same surface appears in non-adjacent rows")
+def homographs_accumulate(db, ctx):
+    f = db.view(db.one("add", "IndexBuilder"))
+    pushes = [c for c, _ in walk(f.hir) if c.get("k") == "MethodCall" and c.get("method") == "push"]
+    via_entry = any(c.get("k") == "MethodCall" and c.get("method") == "entry" for c, _ in walk(f.hir))
+    inserts = [(c, ps) for c, ps in walk(f.hir) if c.get("k") == "MethodCall" and c.get("method") in ("insert", "insert_full", "insert_sorted") and "IndexMap" in (c.get("rty") or "")]
+    bad = []
+    for c, ps in inserts:
+        # an insert is fine only where the key is known to be absent: under a `get`/`get_mut`/`contains_key` miss for this key
+        pcs = path_conditions(c["id"], f.hir) or []
+        absent = False
+        for cn, pol in pcs:
+            if isinstance(cn, tuple) and cn[0] == "arm":
+                pk = ((cn[2] or {}).get("path") or ((cn[2] or {}).get("e") or {}).get("path") or "")
+                if pk.endswith("None") and mentions(cn[1], lambda x: x.get("k") == "MethodCall" and x.get("method") in ("get", "get_mut", "get_full_mut", "get_index_of")):
+                    absent = True
+            elif isinstance(cn, dict):
+                for a, p in atoms(cn, pol):
+                    pa = peel(a)
+                    if pa.get("k") == "MethodCall" and pa.get("method") == "contains_key" and p is False:
+                        absent = True
+        if not absent:
+            bad.append(render(c)[:60])
+    ctx.ob("IndexBuilder::add|accumulates", bool(pushes) and (via_entry or bool(inserts)) and not bad,
+           "IndexBuilder::add pushes the id into the key's entry (entry API used: %s); overwriting inserts not guarded by a lookup miss of the key: %s" % (via_entry, bad), fn=f)
+
+
+@rule("C04.reader-count-limit", "every count the compiler can write into a word-id table record (write_u32_array: up to 127 items) is accepted by the "
+                                "reader: a rejecting comparison on the record's count in WordIdTable::entries does not fire at 127")
+def reader_count_limit(db, ctx):
+    from ..flow import var_evaluator, holds_at
+    from ..db import deref_all
+    w = db.one("write_u32_array", None)
+    limit = None
+    for ifn, cond, pol, ek, ps in guarded_exits(w.hir):
+        c = cmp_atom(cond)
+        if c and ek == "err" and any(lit_int(x) is not None or (peel_casts(x).get("val") is not None) for x in (c[1], c[2])):
+            for cand in (127, 128, 255, 256):
+                from ..guards import eval3
+                v_lo = eval3(cond, var_evaluator(lambda e: ".len()" in render(e, x=True), cand))
+                v_hi = eval3(cond, var_evaluator(lambda e: ".len()" in render(e, x=True), cand + 1))
+                if v_lo is not None and v_hi is not None and (v_lo == pol) is False and (v_hi == pol) is True:
+                    limit = cand
+    ctx.ob("write_u32_array|max-items", limit == 127, "write_u32_array accepts at most %s items (1-byte count, sign bit unused)" % limit, fn=w)
+    e = db.view(db.one("entries", "WordIdTable"))
+
+    def is_cnt(x):
+        d = deref_all(x)
+        return isinstance(d, dict) and (d.get("k") == "MethodCall" and d.get("method") == "read") or render(x) in ("cnt", "count")
+    rej = []
+    for ifn, cond, pol, ek, ps in guarded_exits(e.hir):
+        from ..guards import eval3
+        v = eval3(cond, var_evaluator(is_cnt, limit or 127))
+        if v is not None and v == pol:
+            rej.append(render(cond)[:80])
+    ctx.ob("WordIdTable::entries|accepts-max-count", not rej, "guards of WordIdTable::entries that reject a record of %s ids (the maximum the compiler writes): %s" % (limit or 127, rej), fn=e)
